@@ -15,6 +15,7 @@ EXPLANATION = (
     "overwrite == true or directory_is_empty == true, so the refusal happens before anything is touched; "
     "(3) every path handed to a file-system effect derives from destination.join(&entry.apath[1..]) (or the "
     "function's own path parameter), and restore cannot reach an archive write or removal."
+    " Added: directory_is_empty never inspects the entries (C16.2d)."
 )
 UNDECIDED = ["pre-populated destinations with overwrite=true (following pre-existing links is run-time state)",
              "absence of '..' in apaths of foreign archives (write side: C11.3)"]
